@@ -20,7 +20,7 @@ ATOMS_PARAM = ["R", "Q", "{", "}", "=", "/", "%", ",", ":", "1", "50", "-", "e",
 ATOMS_SUB = ["R", "C", "Tlm", "(", ")", "[", "]", "{", "}", "=", ",", ":", "X_1", "short", "open", "a"]
 ATOMS_PARAM2 = ["R{R=", "Q{Y=", "1", "/", "%", ",", "n=", ":", "a", "}", "inf", "F", "50", "-", "e", "sp", "2", "{"]
 ATOMS_SUB2 = ["Tlm{", "X_1=", "X_2=", "R", "C", "[", "]", "(", ")", ",", "}", "open", "short", ":", "a", "L=", "1", "sp"]
-ATOMS_HEAD = ["!", "V", "=", "1", "1e999", ".", "-", "F", "R", "[", "]", "e", "sp", "nonascii", "_", "+"]
+ATOMS_HEAD = ["!", "V", "=", "1", "1e999", ".", "-", "F", "R", "[", "]", "e", "sp", "nonascii", "_", "+", "!V=", "1!"]   # compound atoms: the header alone fits in two
 
 
 def cfg_text(atoms, first, max_atoms):
